@@ -39,7 +39,7 @@ fn env_seed() -> u64 {
     std::env::var("VERIF_SEED").ok().and_then(|s| s.trim().parse::<u64>().ok()).unwrap_or(1)
 }
 
-const ALL_STRATA: &str = "crash,preempt,siblings,long,random";
+const ALL_STRATA: &str = "crash,preempt,siblings,duel,long,random";
 
 /// Commands that execute the code under test (through the fork server).
 const SIM_CMDS: [&str; 7] = ["child", "solo-slice", "mkreplay", "replay-inner", "solo", "forkbench", "hashes"];
@@ -265,6 +265,7 @@ fn mkreplay(args: &[String], verif_dir: &str) -> i32 {
         sched_seed: 0,
             opts_per_task: false,
             stack_kib: vec![],
+            handler_shared: false,
         tasks: vec![t],
     };
     let rf = match stratum.as_str() {
